@@ -18,3 +18,6 @@ pub mod time;
 
 pub use chan::thread;
 pub use ctx::{fault_fired, probe, FaultKind};
+
+/// `thread_local!` whose values are local to the *simulated* thread (hook H8).
+pub use shuttle::thread_local as sim_thread_local;
